@@ -43,7 +43,7 @@ func main() {
 			Rule:        "scripts of Put/Delete/Cut/Truncate(s)/Rotate on wal.Writer (sequence numbers contiguous from 1), ending in Rotate+Save; the saved file is read with Handle{After:a} (also through the HandleDocument JSON form) for EVERY a from the largest truncation point to the last sequence number; output must equal the appended ops with seq>a in order; non-trivial = script has a Rotate followed by a Truncate, or >=2 cuts; distinct by script hash"},
 		&lib.Prop{ID: "C18", Part: "compaction", Level: "exploration", NCases: n(2000, 40000), Run: compactionCase,
 			Assumptions: []string{"layouts are produced only by flushing model memtables and by compacting (the only legitimate way)", "change sets are applied the way dkv.DB applies them (NewWithChangeSet on the then-current list)"},
-			Rule:        "random write histories over <=14 prefix-related keys flushed as L0 tables (increasing sequence numbers, overwrites, tombstones over older levels), compactor settings drawn from L0 trigger 1..4 x amplification {0,25,50,100,200}% x smallest level 1..600 B x multiplier x target table 40..400 B, Compact repeated to a fixed point with new L0 tables arriving between a step's snapshot and the application of its change set; after every step Get over the key universe and ScanPrefix over every prefix must equal the model and L1+ must be sorted/disjoint; non-trivial = >=1 major and >=1 minor step or a populated middle level; distinct by (settings, history) hash"},
+			Rule:        "random write histories over <=14 prefix-related keys flushed as L0 tables (increasing sequence numbers, overwrites, tombstones over older levels), compactor settings drawn from L0 trigger 1..4 x amplification {0,25,50,100,200}% x smallest level 1..600 B x multiplier x target table 40..400 B, Compact repeated to a fixed point with new L0 tables arriving between a step's snapshot and the application of its change set; a quarter of the steps run with one injected read error on an input table (the step must fail without a change set or produce the complete result); after every step Get over the key universe and ScanPrefix over every prefix must equal the model and L1+ must be sorted/disjoint; non-trivial = >=1 major and >=1 minor step or a populated middle level; distinct by (settings, history) hash"},
 	)
 }
 
